@@ -545,6 +545,17 @@ func (f *Frame) chain() string {
 	return f.Parent.chain() + "→" + fname(f.Fn)
 }
 
+// chainKey identifies the call string including the call sites (for memoisation).
+func (f *Frame) chainKey() string {
+	if f == nil {
+		return ""
+	}
+	if f.Parent == nil {
+		return fname(f.Fn)
+	}
+	return fmt.Sprintf("%s@%p→%s", f.Parent.chainKey(), f.Site, fname(f.Fn))
+}
+
 // actualArg maps parameter index i of fr.Fn to the argument value at the call site.
 func (fr *Frame) actualArg(p *ssa.Parameter) (ssa.Value, bool) {
 	if fr == nil || fr.Site == nil || fr.Parent == nil {
@@ -597,9 +608,17 @@ func (c *Ctx) accessPathD(v ssa.Value, fr *Frame, d int) string {
 	case *ssa.Field:
 		return c.accessPathD(x.X, fr, d+1) + "." + fieldNameV(x)
 	case *ssa.IndexAddr:
+		if k, ok := constInt(x.Index); ok {
+			return c.accessPathD(x.X, fr, d+1) + fmt.Sprintf("[%d]", k)
+		}
 		return c.accessPathD(x.X, fr, d+1) + "[]"
 	case *ssa.Index:
+		if k, ok := constInt(x.Index); ok {
+			return c.accessPathD(x.X, fr, d+1) + fmt.Sprintf("[%d]", k)
+		}
 		return c.accessPathD(x.X, fr, d+1) + "[]"
+	case *ssa.Lookup:
+		return c.accessPathD(x.X, fr, d+1) + "[" + c.accessPathD(x.Index, fr, d+1) + "]"
 	case *ssa.UnOp:
 		if x.Op == token.MUL {
 			// load from a local spill with a single store: forward
